@@ -6,7 +6,7 @@ from pvlib import hx, unhx
 LEVEL = "proof"
 RULE = ("wrap_lines called in-process (foldfilter_main.cc included with main renamed; exact-size heap copy, ASan): all lines of "
         "<= 5 (quick) / 6 (thorough) symbols over {a, space, ',', '-', e-acute(2B), euro(3B), emoji(4B)} x widths 1..9 x delimiter "
-        "lists {default, 'euro,comma', empty, space} x {-s, no -s}; seeded random long lines; oracle = the property itself "
+        "lists {default, 'euro,comma', empty, space} x {-s, no -s}; seeded random long lines; the first/last code point of every UTF-8 length (U+7F..U+10FFFF) in text and as delimiter; oracle = the property itself "
         "evaluated on the implementation's pieces (lossless, width, code-point boundaries, withheld runs are delimiters); the "
         "real bin/foldfilter with `cat` as child on lines incl. CR; non-trivial = distinct op")
 ASSUMPTIONS = ["model transcribes wrap_lines() and the reader loop by hand; DecodeUTF8 is the C12 model",
@@ -72,6 +72,14 @@ def run(ctx):
         wts = rng.choice([[5, 1, 3, 2, 1, 1, 1], [1, 5, 5, 5, 1, 3, 1], [1] * 7])
         line = "".join(rng.choices(SYMS, wts, k=n)).encode()
         ops.append(f"fold.wrap {rng.randrange(1, 16)} {rng.randrange(2)} {dl_str(rng.choice(list(DL.values())))} {hx(line)}")
+    # the first and last code point of every UTF-8 length (and the surrogate gap's neighbours), alone, in text and as delimiter
+    edges = [0x7F, 0x80, 0x7FF, 0x800, 0xD7FF, 0xE000, 0xFFFD, 0xFFFF, 0x10000, 0x10FFFE, 0x10FFFF]
+    for cp in edges:
+        c = chr(cp)
+        for line in (c, "ab" + c + "cd", c * 3, "a " + c + ", b", c + " " + c):
+            for wd in (1, 2, 4, 5, 80):
+                for dl in (DL["default"], [cp], [cp, 32]):
+                    ops.append(f"fold.wrap {wd} {rng.randrange(2)} {dl_str(dl)} {hx(line.encode())}")
     ops = list(dict.fromkeys(ops))
     bad, a, b = pvlib.diff_streams(ctx, "fold.wrap", ops, impl_exe=impl)
     ctx.cov["pieces_total"] = sum(int(x.split()[1]) for x in a if x.startswith("ok "))
